@@ -29,6 +29,7 @@ func init() {
 		Run:       c15Run,
 		Replay:    c15Replay,
 		NeedRepro: true,
+		DeadlineT: 75 * time.Minute,
 	})
 }
 
